@@ -259,8 +259,7 @@ func c13Leaves(s *c13Scn) *c13FP {
 	allParsed := true
 	var templ *template.Template
 	if cc != nil {
-		tctx, err := packagerender.VerifTemplateContext(tc)
-		if err != nil {
+		if _, err := packagerender.VerifTemplateContext(tc); err != nil {
 			panic(err)
 		}
 		templ = template.New("pkg").Option("missingkey=error")
@@ -286,6 +285,12 @@ func c13Leaves(s *c13Scn) *c13FP {
 				f := &s.Files[i]
 				if !packagetypes.IsTemplateFile(f.P) {
 					continue
+				}
+				// the leaf is a function of (template, context): every template gets a fresh context,
+				// as RenderTemplates does since the C13-c fix
+				tctx, err := packagerender.VerifTemplateContext(tc)
+				if err != nil {
+					panic(err)
 				}
 				var buf bytes.Buffer
 				if err := templ.ExecuteTemplate(&buf, f.P, tctx); err == nil {
@@ -705,8 +710,17 @@ func (g *c13Gen) templateYAML(helpers []string, otherPaths []string) string {
 		if i > 0 {
 			b.WriteString("---\n")
 		}
-		k := g.rng.Intn(12)
+		k := g.rng.Intn(14)
 		switch {
+		case k == 12 || k == 13:
+			// templates that MODIFY the context they were handed (the C13-c shape): set / unset / merge work
+			// in place, so a context shared between templates would leak from one template into the ones
+			// executed after it — in map iteration order
+			b.WriteString(g.objDoc("", g.pick(
+				`{{ hasKey .config "mark" | quote }}{{ $_ := set .config "mark" "1" }}`,
+				`{{ get .config "mark" | default "none" | quote }}{{ $_ := set .config "mark" .package.metadata.name }}`,
+				`{{ keys .config | sortAlpha | join "," | quote }}{{ $_ := mergeOverwrite .config (dict "extra" "1") }}`,
+				`{{ hasKey .images "probe" | quote }}{{ $_ := set .images "probe" "x" }}`)))
 		case k == 0:
 			b.WriteString(g.objDoc("-{{ .package.metadata.name }}", `{{ .config.greeting | upper | quote }}`))
 		case k == 1:
